@@ -45,6 +45,9 @@ CHECKS["C04"] = dict(category="model_checking", technique="TLA+ E57Spec/E57Meta:
 CHECKS["C14"] = dict(category="model_checking", technique="TLA+ E57Meta: exact bounds (IEEE-754 total order on bit limbs) and limit defaults computed by TLC from the recorded points, compared with what the reader reports",
    text="Attribute-group subsets x coordinate types (single, double, scaled integers with dyadic positive and negative scale) x point sequences (empty, single, constant, monotone, sign-mixed with +-0, extremes; distinct extremes per axis at distinct indices): TLC computes min/max of the real values and of index attributes and requires the reported bounds to be present exactly for the groups in the prototype and equal; default limits = declared type range, complete overrides as given.",
    note=FILE_NOTE + " Real values are mechanical conversions recorded by the harness (exact for the values used); NaN excluded.", ref="6 C14")
+CHECKS["C18"] = dict(category="model_checking", technique="TLA+ E57Meta schema table drives exhaustive foreign-element insertions; TLC trace validation requires report = un-extended scene",
+   text="The schema table of the specification (printed by TLC) yields, for every element outside a prototype, every standard child name; each is inserted as a foreign-namespace element of the same type with plausible content (plus fresh names, nested structures) at the first/last (quick) or every (thorough) child index of the fully populated base file through finalize_customized_xml; foreign attributes on every element; extension records with standard local names in prototypes. TLC requires the reader's report, points and blobs to equal the un-extended scene.",
+   note=FILE_NOTE, ref="6 C18")
 NOT_APPLICABLE = {}
 
 def main():
